@@ -370,7 +370,8 @@ fn orchestrate(p: &dyn Prop, tier: Tier, seed: u64) -> i32 {
     println!("{id} {} seed={seed}: shards={nshards} cases={} evaluations={evaluations} distinct_nontrivial={} wall={wall:.1}s", tier.name(), merged.cases, merged.distinct.len());
     let mut line = String::new();
     for (k, v) in &merged.counters {
-        if k == "evaluations" {
+        // per-symbol call counts of C19 are in the evidence file; keep the console summary short
+        if k == "evaluations" || k.contains(".riti_") {
             continue;
         }
         let item = format!("{k}={v}");
